@@ -11,11 +11,12 @@ Definition rrest (s : st) (r : nat) : Prop :=
   (rdead x = true -> txp s = 0 /\ rp x <> W0 /\ rp x <> WB /\
                      (rp x = YIdle -> match rres x with REmpty | RTimeout => False | _ => True end)) /\
   (rp x = YIdle -> rres x = RDisc -> txp s = 0) /\
-  (rp x = X1 -> rxp s = 0).
+  (rp x = X1 -> rxp s = 0) /\
+  (rp x = Y3n \/ rp x = Y4n -> q s = []).
 Lemma rinv_rest s r : rinv s r -> rrest s r.
 Proof. unfold rinv, rrest. tauto. Qed.
 
-Lemma pres_rrest s ac s' : Inv s -> step true true s ac = Some s' -> forall r, rrest s' r.
+Lemma pres_rrest c s ac s' : Inv s -> step true true c s ac = Some s' -> forall r, rrest s' r.
 Proof.
   intros Hi H r0. pose proof (I_R _ Hi r0) as P. unfold rinv in P. unfold rrest. boolh.
   step_cases H; boolh; unf; prj; auto.
